@@ -201,6 +201,13 @@ pub fn state<T: Q, const N: usize>(pre: Pre, tables: Tables) -> (T, Ghost<N>) {
     (q, g)
 }
 
+/// pre-state with a chosen amount of unused capacity (0: the next insertion reallocates)
+pub fn state_spare<T: Q, const N: usize>(pre: Pre, tables: Tables, spare: usize) -> (T, Ghost<N>) {
+    let g = ghost::<N>(T::DOUBLE, pre, tables);
+    let q = build::<T, N>(&g, spare);
+    (q, g)
+}
+
 /// pre-state over the concrete keys `keys`
 pub fn state_keys<T: Q, const N: usize>(pre: Pre, tables: Tables, keys: [u8; N]) -> (T, Ghost<N>) {
     let g = ghost_with::<N>(T::DOUBLE, pre, tables, Some(keys));
